@@ -26,6 +26,9 @@ const ruleText = "a case is one sandbox (component fst|ds|dsh|upd, root at depth
 	"(3) names built from the root's own absolute path (token @R, expanded to the real root path for the implementation and to the virtual one for model and monitor): k parent references (k = depth, depth+1, depth+2 from the directory the name is resolved in, sometimes fewer), " +
 	"a foreign directory ('mirror' at the sandbox top holds <mirror>/<absolute root path>/ with a well-formed decoy, 'sub', 'tmp/thing_v1-0-0'; or a sibling), the complete root path, a rest — for fstree keys and query prefixes, DirStructure paths and ChildDir names, zip entries, scan roots (absolute and cwd-relative); " +
 	"only where the embedded path starts outside the root and no parent reference follows it (both worlds then agree). " +
+	"Round 5c: next to every root a sibling whose name is the root's name with the case of its first letter flipped ('root' -> 'Root'; plain file, 'sub', well-formed decoy); class case-variant: " +
+	"1(+2 for zip entries) parent references (sometimes after a descent, one more / fewer), the case variant (sometimes all upper case / another letter), then nothing, '/', a complete or partial last segment ('/sec', '/secret', '/sub/', '/pl', ...) — " +
+	"for fstree keys and query prefixes, DirStructure paths and ChildDir names, zip entries, scan roots (absolute: case-variant-abs); the case variant is also one of the siblings every climb class picks from. " +
 	"A separate stream (implementation + oracle only, also NUL in place of the separator / after '..') has NUL bytes, 300-byte segments, NAME_MAX boundaries inside and outside the root and climbs of depth+6. lib cases compare filepath.Clean/Dir/Join/Rel and " +
 	"path.Base with the model on every string over {'/','.','a'} up to length 6 (pairs up to length 3) and on random strings. " +
 	"A case is non-trivial if at least one of its names contains a parent reference, an absolute prefix or a sibling name; distinct by the hash of its lines."
@@ -75,7 +78,69 @@ func (g *gctx) benign() string {
 }
 
 func (g *gctx) siblings() []string {
-	return []string{g.rootName + "-other", g.rootName + "x", "other", g.rootName + "-old", g.rootName + "-new", g.rootName + ".", g.rootName + " "}
+	return []string{g.rootName + "-other", g.rootName + "x", "other", g.rootName + "-old", g.rootName + "-new", g.rootName + ".", g.rootName + " ",
+		caseVariant(g.rootName), caseVariant(g.rootName), strings.ToUpper(g.rootName)}
+}
+
+// caseVariant: the name with the letter case of its first (ASCII) letter flipped ("root" -> "Root", "st.or" -> "St.or").
+// Every root name of rootRels contains a letter, so the result is a different name — a different directory on a
+// case-sensitive file system — that any case-insensitive comparison takes for the root.  The sandbox holds a sibling
+// of this name with decoys (sandbox.go, Drv/C18.lean: caseVariant).
+func caseVariant(name string) string {
+	b := []byte(name)
+	for i, c := range b {
+		if c >= 'a' && c <= 'z' {
+			b[i] = c - 32
+			return string(b)
+		}
+		if c >= 'A' && c <= 'Z' {
+			b[i] = c + 32
+			return string(b)
+		}
+	}
+	return name
+}
+
+// caseVar: the root re-entered under another letter case — climb to the root's parent (1 + extraUp parent
+// references; sometimes after a descent, sometimes one too many / too few), the case variant of the root's name (mostly
+// the one that exists as a sibling directory with decoys; sometimes all upper case, or the case of another letter), then
+// nothing, a separator, a complete or PARTIAL last segment (the decoys' names and prefixes of them), deeper names.
+func (g *gctx) caseVar() string {
+	rng := g.rng
+	g.hostile = true
+	k := 1 + g.extraUp
+	var s []string
+	if rng.Intn(6) == 0 {
+		s = append(s, pick(rng, insidePool))
+		k++
+	}
+	switch rng.Intn(12) {
+	case 0:
+		k++
+	case 1:
+		if k > 1 {
+			k--
+		}
+	}
+	for i := 0; i < k; i++ {
+		s = append(s, "..")
+	}
+	v := caseVariant(g.rootName)
+	switch rng.Intn(8) {
+	case 0:
+		v = strings.ToUpper(g.rootName)
+	case 1:
+		b := []byte(g.rootName)
+		i := rng.Intn(len(b))
+		if b[i] >= 'a' && b[i] <= 'z' {
+			b[i] -= 32
+		}
+		v = string(b)
+	}
+	s = append(s, v)
+	rest := pick(rng, []string{"", "/", "/sec", "/secret", "/s", "/sub", "/sub/", "/sub/new", "/plain.txt", "/pl", "/evil_v6-6-6", "/evil", "/new", "/a", "/d/b", "/d",
+		"/tmp/thing_v1-0-0/x", "/all", "/.", "/secret/"})
+	return strings.Join(s, "/") + rest
 }
 
 // tokOK: may a name that embeds the root's absolute path (rootTok) be used where relative names are resolved in the
@@ -129,7 +194,9 @@ func (g *gctx) relName() (string, string) {
 
 func (g *gctx) relName0() (string, string) {
 	rng := g.rng
-	switch x := rng.Intn(118); {
+	switch x := rng.Intn(127); {
+	case x >= 118:
+		return g.caseVar(), "case-variant"
 	case x >= 109:
 		return g.embedRoot(), "embed-root"
 	case x >= 100:
@@ -506,7 +573,8 @@ func (g *gctx) absName0() (string, string) {
 	case x < 70:
 		g.hostile = true
 		suf := pick(rng, []string{"", "/", "/.", "/..", "-other", "-other/x", "-other/sub/new", "x", "x/y", "/../" + g.rootName + "-other/z", "//a", "/./a",
-			"/../" + g.rootName, "/../" + g.rootName + "/k", "-new", "-new/k", "/a/../../" + g.rootName + "x/q", ".", " "})
+			"/../" + g.rootName, "/../" + g.rootName + "/k", "-new", "-new/k", "/a/../../" + g.rootName + "x/q", ".", " ",
+			"/../" + caseVariant(g.rootName), "/../" + caseVariant(g.rootName) + "/sub", "/../" + caseVariant(g.rootName) + "/sub/new", "/a/../../" + caseVariant(g.rootName) + "/k"})
 		return g.vroot + suf, "root-suffix"
 	case x < 82:
 		g.hostile = true
@@ -523,7 +591,11 @@ func (g *gctx) absName0() (string, string) {
 	case x < 88:
 		g.hostile = true
 		return pick(rng, []string{"/", "/dev/shm/verif-c18.never/x", "/var/tmp/verif-c18.never/x", SB, SB + "/", "//", "/.."}), "absolute"
-	case x < 93:
+	case x < 91:
+		// the sibling that differs from the root in letter case only, named absolutely
+		g.hostile = true
+		return g.vroot[:len(g.vroot)-len(g.rootName)] + caseVariant(g.rootName) + pick(rng, []string{"", "/", "/sub", "/sub/new", "/plain.txt", "/evil_v6-6-6", "/secret", "/k"}), "case-variant-abs"
+	case x < 94:
 		// the foreign tree that embeds the root's absolute path, named absolutely
 		g.hostile = true
 		return SB + "/mirror/" + rootTok + pick(rng, []string{"", "/", "/sub", "/sub/new", "/plain.txt", "/evil_v6-6-6", "/tmp/thing_v1-0-0/x", "/secret"}), "embed-root-abs"
@@ -809,6 +881,31 @@ func generate(r *hxlib.Run, emit func(hxlib.Case)) {
 		return []string{"chd 0 " + hx("../../../mirror/"+rootTok) + " 700", "hens 1", "henr 1 " + hx("sub"),
 			"hena 0 " + hx(SB+"/mirror/"+rootTok+"/sub/new"), "chd 0 " + hx("..\\..\\evil") + " 750", "hens 2", "henr 0 " + hx("evil")}
 	})
+
+	// round 5c: the sibling that differs from the root's name in letter case only (seeded C18-r5-1: case-insensitive scope comparison)
+	for _, rr := range []string{"w/a/root", "w/db", "r"} {
+		emitCase(r, emit, "fst", rr, "plain", "", false, "corpus", func(g *gctx) []string {
+			g.hostile = true
+			v := "../" + caseVariant(g.rootName)
+			return []string{"qry " + hx(v), "qry " + hx(v+"/"), "qry " + hx(v+"/sec"), "qry " + hx(v+"/secret"), "qry " + hx(v+"/sub/"), "qry " + hx(v+"/s"), "qry " + hx("d/../"+v+"/pl"),
+				"get " + hx(v+"/secret"), "gmt " + hx(v+"/secret"), "put " + hx(v+"/created"), "del " + hx(v+"/secret"), "qry " + hx("../"+strings.ToUpper(g.rootName)+"/x"), "get " + hx("a"), "qry -"}
+		})
+	}
+	emitCase(r, emit, "ds", "w/a/root", "plain", "", false, "corpus", func(g *gctx) []string {
+		g.hostile = true
+		return []string{"ens r " + hx(SB+"/w/a/Root/sub/new"), "ens c " + hx(g.vroot+"/../Root/k"), "enr r " + hx("../Root/k"), "end r " + hxList([]string{"..", "Root", "k"}), "ens r " + hx(SB+"/w/a/Root")}
+	})
+	emitCase(r, emit, "dsh", "w/a/root", "plain", "", false, "corpus", func(g *gctx) []string {
+		g.hostile = true
+		return []string{"chd 0 " + hx("../Root") + " 700", "hens 1", "henr 1 " + hx("sub"), "hena 0 " + hx(SB+"/w/a/Root/sub/new"), "henr 0 " + hx("../Root/k")}
+	})
+	for _, variant := range []string{"plain", "nested"} {
+		emitCase(r, emit, "upd", "w/a/root", variant, "w", false, "corpus", func(g *gctx) []string {
+			g.hostile = true
+			return []string{"scan " + hx(SB+"/w/a/Root"), "scan " + hx(SB+"/w/a/Root/sub"), "scan " + hx("a/Root"), "scan " + hx(g.vroot+"/../Root"),
+				"unz " + hxList([]string{"ok.txt", "../../../Root/evil"}), "unz " + hxList([]string{"../../../Root/sub/x"}), "unz " + hxList([]string{"d/", "d/../../../../Root/evil_v6-6-6"})}
+		})
+	}
 
 	// ---- generated cases ----------------------------------------------------------------------------
 	nCases := r.Budget(1500, 26000)
